@@ -777,6 +777,23 @@ func (c GeneratorContext) addLocalVar(name string) (GeneratorContext, error) {
 	return GeneratorContext{am: newAm, cm: c.cm}, nil
 }
 
+// reserve returns a context in which n additional, anonymous stack slots are
+// marked as used. It is used while generating the code for the arguments of a
+// call: at runtime the values of the preceding arguments (and the receiver of a
+// method call) are already pushed to the stack when an argument is evaluated, so
+// a local variable created within the argument lives behind them.
+func (c GeneratorContext) reserve(n int) GeneratorContext {
+	if n == 0 {
+		return c
+	}
+	newAm := make(argsList, len(c.am), len(c.am)+n)
+	copy(newAm, c.am)
+	for i := 0; i < n; i++ {
+		newAm = append(newAm, "")
+	}
+	return GeneratorContext{am: newAm, cm: c.cm}
+}
+
 type Func[V any] func(Stack[V]) (V, error)
 
 func (f Func[V]) Eval(args ...V) (V, error) {
@@ -1132,7 +1149,7 @@ func (g *FunctionGenerator[V]) GenerateFunc(ast parser2.AST, gc GeneratorContext
 				if fun.argsNumberNotMatching(len(a.Args)) {
 					return nil, false, id.Error(fun.argsNumberNotMatchingError(id.Name, len(a.Args)))
 				}
-				argsFuncList, pure, err := g.genFuncList(a.Args, gc)
+				argsFuncList, pure, err := g.genArgsList(a.Args, gc, 0)
 				if err != nil {
 					return nil, false, err
 				}
@@ -1152,7 +1169,7 @@ func (g *FunctionGenerator[V]) GenerateFunc(ast parser2.AST, gc GeneratorContext
 		if err != nil {
 			return nil, false, g.generateStaticFunctionDocu(err)
 		}
-		argsFuncList, aPure, err := g.genFuncList(a.Args, gc)
+		argsFuncList, aPure, err := g.genArgsList(a.Args, gc, 0)
 		if err != nil {
 			return nil, false, err
 		}
@@ -1183,7 +1200,7 @@ func (g *FunctionGenerator[V]) GenerateFunc(ast parser2.AST, gc GeneratorContext
 			return nil, false, err
 		}
 		name := a.Name
-		argsFuncList, aPure, err := g.genFuncList(a.Args, gc)
+		argsFuncList, aPure, err := g.genArgsList(a.Args, gc, 1)
 		if err != nil {
 			return nil, false, err
 		}
@@ -1200,6 +1217,8 @@ func (g *FunctionGenerator[V]) GenerateFunc(ast parser2.AST, gc GeneratorContext
 						if theFunc.argsNumberNotMatching(len(argsFuncList)) {
 							return zero, a.Error(theFunc.argsNumberNotMatchingError(name, len(argsFuncList)))
 						}
+						// the arguments are compiled to live behind the receiver
+						st.Push(value)
 						for _, argFunc := range argsFuncList {
 							v, err := argFunc(st, cs)
 							if err != nil {
@@ -1290,12 +1309,23 @@ func (g *FunctionGenerator[V]) createClosureLiteralFunc(a *parser2.ClosureLitera
 }
 
 func (g *FunctionGenerator[V]) genFuncList(a []parser2.AST, gc GeneratorContext) ([]ParserFunc[V], bool, error) {
+	return g.genArgsList(a, gc, -1)
+}
+
+// genArgsList generates the code for the arguments of a call. If pushed is not
+// negative, the argument values are pushed to the stack one after the other,
+// behind [pushed] values which are already pushed by the caller.
+func (g *FunctionGenerator[V]) genArgsList(a []parser2.AST, gc GeneratorContext, pushed int) ([]ParserFunc[V], bool, error) {
 	args := make([]ParserFunc[V], len(a))
 	pure := true
 	for i, arg := range a {
 		var err error
 		var p bool
-		args[i], p, err = g.GenerateFunc(arg, gc)
+		argGc := gc
+		if pushed >= 0 {
+			argGc = gc.reserve(pushed + i)
+		}
+		args[i], p, err = g.GenerateFunc(arg, argGc)
 		if err != nil {
 			return nil, false, err
 		}
